@@ -202,7 +202,11 @@ def run_on_ready(c: Dict[str, Any]) -> Outcome:
             out.add("C16.b", f"{len(b.sent)} messages sent, expected exactly one")
         else:
             tm = b.formatter.loads(b.sent[0].message)
-            tm.parse_labels()
+            try:
+                tm.parse_labels()
+            except Exception as exc:  # noqa: BLE001 - what the worker would hit when it receives this message
+                out.add("C16.b", f"the labels of the sent message cannot be decoded by the receiving side: {type(exc).__name__}: {short(exc, 120)}; schedule labels {short(labels, 160)}")
+                return out
             want = {**labels, "schedule_id": c["sid"]}
             if tm.task_name != "some.task" or b.sent[0].task_name != "some.task":
                 out.add("C16.b", f"sent task name {tm.task_name!r}")
@@ -339,7 +343,11 @@ class LabelSim:
                 out.add("C16.b", f"firing {s.task_name} args={s.args} sent {len(self.broker.sent) - before_sent} messages")
             else:
                 tm = self.broker.formatter.loads(self.broker.sent[-1].message)
-                tm.parse_labels()
+                try:
+                    tm.parse_labels()
+                except Exception as exc:  # noqa: BLE001
+                    out.add("C16.b", f"the labels of the fired message cannot be decoded by the receiving side: {type(exc).__name__}: {exc}")
+                    return
                 if tm.task_name != s.task_name or tm.args != s.args or tm.kwargs != s.kwargs or tm.labels.get("schedule_id") != s.schedule_id:
                     out.add("C16.b", f"fired message {tm.task_name} {tm.args} {tm.kwargs} sid={tm.labels.get('schedule_id')} != schedule {s.task_name} {s.args} {s.kwargs} sid={s.schedule_id}")
             # model + validity of the removal
